@@ -150,9 +150,31 @@ def run_closure(ctx, idx):
         ctx.count(f"chunk_bytes[{dwriter.CHUNK_SIZE_BYTES}]")
         model = good_model(rng, fl=bool(rng.random() < 0.4))
         p0 = tmp / "w.rtdc"
-        gd.write_model(p0, model, with_index=bool(rng.random() < 0.5))
+        long_case = idx % 48 == 5
+        if long_case:
+            # a long measurement stored without compression (as acquisition software may): a
+            # few scalar features and the index, several storage chunks each, counts that
+            # leave a remainder after the last full chunk / block of chunks
+            dwriter.CHUNK_SIZE_BYTES = 1024 ** 2
+            nl = int(rng.choice([400000, 300001, 655361]))
+            model = good_model(rng, n=8)
+            model["n"] = nl
+            model["features"] = {"deform": rng.uniform(0.01, 0.2, nl),
+                                 "area_um": rng.uniform(20, 200, nl).astype(np.float32)}
+            model["logs"], model["tables"] = {}, {}
+            model["meta"] = gd.complete_meta(rng, model["features"], nl)
+            with dclab.RTDCWriter(p0, mode="reset", compression_kwargs={}) as hw:
+                hw.store_metadata(model["meta"])
+                for k_, v_ in model["features"].items():
+                    hw.store_feature(k_, v_)
+                hw.store_feature("index", np.arange(1, nl + 1))
+            ctx.count("long_uncompressed_measurements")
+        else:
+            gd.write_model(p0, model, with_index=bool(rng.random() < 0.5))
         path_kind = str(rng.choice(["writer", "export", "export_filtered", "compress", "repack",
                                     "condense", "split", "join"]))
+        if long_case:
+            path_kind = str(rng.choice(["compress", "repack"]))
         files = [p0]
         if path_kind.startswith("export"):
             with dclab.new_dataset(p0) as ds:
